@@ -11,6 +11,7 @@
 import EnrVerif.Proofs.CodecTheorems
 import EnrVerif.Model.Stream
 import EnrVerif.Proofs.StreamLemmas
+import EnrVerif.Proofs.Examples
 
 namespace EnrVerif
 
@@ -126,6 +127,118 @@ theorem C13_decode_many_append (S : Scheme) (a b : Bytes) (ra rb : List Record)
     (ha : decodeMany S a = .ok ra) (hb : decodeMany S b = .ok rb) :
     decodeMany S (a ++ b) = .ok (ra ++ rb) :=
   decodeMany_append S a b ra rb ha hb
+
+/-! ### non-vacuity -/
+
+/-- the items used below, literally: the encodings of the toy records `r0`, `r1` (`r0` after
+    `set_udp4(30303)`) and `r0Swapped`, which is `r0Bytes` with its two pairs exchanged -/
+example : r0.encode = r0Bytes ∧ r1.encode = r1Bytes ∧
+    r0Bytes = [209, 132, 1, 2, 3, 13, 1, 130, 105, 100, 130, 118, 52, 116, 131, 1, 2, 3] ∧
+    r1Bytes = [216, 132, 1, 2, 3, 20, 2, 130, 105, 100, 130, 118, 52, 116, 131, 1, 2, 3,
+      131, 117, 100, 112, 130, 118, 95] ∧
+    r0Swapped = [209, 132, 1, 2, 3, 13, 1, 116, 131, 1, 2, 3, 130, 105, 100, 130, 118, 52] :=
+  ⟨r0_encode, r1_encode, rfl, rfl, rfl⟩
+
+/-- the encoding of `r0` is one complete RLP item: a list header announcing 17 bytes, and 17 bytes -/
+example : CompleteItem r0Bytes := ⟨⟨true, 17⟩, r0Bytes.drop 1, r0Bytes_header, by decide⟩
+
+/-- so is `r0Swapped` (the same item with the two pairs in the wrong order), which is rejected -/
+example : CompleteItem r0Swapped := ⟨⟨true, 17⟩, r0Swapped.drop 1, r0Swapped_header, by decide⟩
+
+/-- an incomplete item: the last byte is missing -/
+example : ¬ CompleteItem r0Bytes.dropLast := by
+  rintro ⟨h, r, hd, _⟩
+  have : decodeHeader r0Bytes.dropLast = .error .inputTooShort := by decide
+  rw [this] at hd
+  cases hd
+
+/-- what the decoder does on the two items alone -/
+example : decode tinyS r0Bytes = .ok (r0, []) ∧
+    decode tinyS r0Swapped = .error (.custom .unsorted) := by decide +kernel
+
+/-- `C13_prefix_local_ok`: same record, buffer advanced by exactly the item … -/
+example : decode tinyS (r0Bytes ++ [1, 2, 3]) = .ok (r0, [1, 2, 3]) :=
+  C13_prefix_local_ok tinyS r0Bytes [1, 2, 3] r0 r0Bytes_decodes
+
+/-- … also when what follows is another record … -/
+example : decode tinyS (r0Bytes ++ r1Bytes) = .ok (r0, r1Bytes) :=
+  C13_prefix_local_ok tinyS r0Bytes r1Bytes r0 r0Bytes_decodes
+
+/-- … and the decoder, run on the concatenation, agrees -/
+example : decode tinyS (r0Bytes ++ [1, 2, 3]) = .ok (r0, [1, 2, 3]) ∧
+    decode tinyS (r0Bytes ++ r1Bytes) = .ok (r0, r1Bytes) := by decide +kernel
+
+/-- `C13_prefix_local_err`: the same error, whatever follows -/
+example : decode tinyS (r0Swapped ++ r1Bytes) = .error (.custom .unsorted) :=
+  C13_prefix_local_err tinyS r0Swapped r1Bytes _ ⟨_, _, r0Swapped_header, by decide⟩ r0Swapped_rejected
+
+example : decode tinyS (r0Swapped ++ r1Bytes) = .error (.custom .unsorted) := by decide +kernel
+
+/-- why the error case needs a *complete* item: the truncated record fails with `InputTooShort`
+    alone, and differently once bytes follow -/
+example : decode tinyS r0Bytes.dropLast = .error .inputTooShort ∧
+    decode tinyS (r0Bytes.dropLast ++ [4]) = .error (.custom .invalidSignature) := by decide +kernel
+
+/-- `C13_complete_item_consumed`, `C13_same_outcome` (both branches), `C13_advance` -/
+example : ([] : Bytes) = [] :=
+  C13_complete_item_consumed tinyS r0Bytes r0 [] ⟨_, _, r0Bytes_header, by decide⟩ r0Bytes_decodes
+
+example : decode tinyS (r0Bytes ++ [7]) = .ok (r0, [7]) := by
+  have h := C13_same_outcome tinyS r0Bytes [7] ⟨_, _, r0Bytes_header, by decide⟩
+  rw [r0Bytes_decodes] at h
+  exact h
+
+example : decode tinyS (r0Swapped ++ [7]) = .error (.custom .unsorted) := by
+  have h := C13_same_outcome tinyS r0Swapped [7] ⟨_, _, r0Swapped_header, by decide⟩
+  rw [r0Swapped_rejected] at h
+  exact h
+
+example : (r0Bytes ++ [1, 2, 3]).length - ([1, 2, 3] : Bytes).length = r0.size ∧
+    r0.encode ++ [1, 2, 3] = r0Bytes ++ [1, 2, 3] :=
+  C13_advance tinyS _ r0 _ (C13_prefix_local_ok tinyS r0Bytes [1, 2, 3] r0 r0Bytes_decodes)
+
+/-- three consecutive records (`r0`, its update `r1`, the re-keyed `r2`): 68 bytes -/
+example : encodeAll [r0, r1, r2] = r0Bytes ++ r1Bytes ++ r2Bytes := by decide
+
+example : decodeMany tinyS (encodeAll [r0, r1, r2]) = .ok [r0, r1, r2] :=
+  C13_decode_many tinyS [r0, r1, r2] r012_valid
+
+example : decodeMany tinyS (r0.encode ++ r1.encode) = .ok [r0, r1] := by
+  have h := C13_decode_many tinyS [r0, r1] (fun r hr => r012_valid r (by
+    simp only [List.mem_cons, List.not_mem_nil, or_false] at hr ⊢
+    rcases hr with h | h
+    · exact .inl h
+    · exact .inr (.inl h)))
+  simpa [encodeAll] using h
+
+/-- the loop, run on the literal bytes -/
+example : decodeMany tinyS (r0Bytes ++ r1Bytes ++ r2Bytes) = .ok [r0, r1, r2] := by decide +kernel
+
+/-- a stream with a bad record in second place fails as a whole, with that record's error -/
+example : decodeMany tinyS (r0Bytes ++ r0Swapped ++ r2Bytes) = .error (.custom .unsorted) := by
+  decide +kernel
+
+/-- the RLP list of the three records (`Vec<Enr<K>>`): header `f8 44`, then the 68 bytes -/
+example : encList (encodeAll [r0, r1, r2]) = [248, 68] ++ (r0Bytes ++ r1Bytes ++ r2Bytes) := by decide
+
+example : decodeList tinyS (encList (encodeAll [r0, r1, r2]) ++ [9, 9]) = .ok ([r0, r1, r2], [9, 9]) :=
+  C13_decode_list tinyS [r0, r1, r2] [9, 9] r012_valid (by decide)
+
+example : decodeList tinyS ([248, 68] ++ (r0Bytes ++ r1Bytes ++ r2Bytes) ++ [9, 9]) =
+    .ok ([r0, r1, r2], [9, 9]) := by decide +kernel
+
+/-- `C13_decode_many_iff` / `C13_decode_list_spec`, from a run of the decoder to the specification -/
+example : (∀ r ∈ [r0, r1], Valid tinyS r) ∧ encodeAll [r0, r1] = r0Bytes ++ r1Bytes :=
+  (C13_decode_many_iff tinyS (r0Bytes ++ r1Bytes) [r0, r1]).1 (by decide +kernel)
+
+example : (∀ r ∈ [r0, r1], Valid tinyS r) ∧
+    [235] ++ (r0Bytes ++ r1Bytes) = encList (encodeAll [r0, r1]) ++ [] :=
+  C13_decode_list_spec tinyS _ [r0, r1] [] (by decide +kernel)
+
+/-- streams compose -/
+example : decodeMany tinyS (r0Bytes ++ (r1Bytes ++ r2Bytes)) = .ok ([r0] ++ [r1, r2]) :=
+  C13_decode_many_append tinyS r0Bytes (r1Bytes ++ r2Bytes) [r0] [r1, r2]
+    (by decide +kernel) (by decide +kernel)
 
 #print axioms C13_decode_many_iff
 #print axioms C13_decode_list_spec
